@@ -37,8 +37,8 @@ type Data struct {
 	Input    kernel.ValueSpec   `json:"input"`
 	VarNames []string           `json:"var_names,omitempty"`
 	VarVals  []kernel.ValueSpec `json:"var_vals,omitempty"`
-	Mode     string             `json:"mode"` // A: poll-indexed, B: tick-indexed, P: protocol only
-	K        int                `json:"k"`    // poll (A) or tick (B) at which the context is cancelled; 0 = before RunWithContext
+	Mode     string             `json:"mode"`            // A: poll-indexed, B: tick-indexed, P: protocol only
+	K        int                `json:"k"`               // poll (A) or tick (B) at which the context is cancelled; 0 = before RunWithContext
 	KEnd     int                `json:"k_end,omitempty"` // if > 0: K = (polls or ticks of the uncancelled run) + KEnd, resolved at Exec time
 	TickKind string             `json:"tick_kind,omitempty"`
 	ViaQuery bool               `json:"via_query,omitempty"` // Query.RunWithContext instead of Code.RunWithContext
@@ -758,10 +758,10 @@ func (Prop) Describe(ev *kernel.Evidence) {
 		"non-trivial and distinct = distinct (program, input, mode, k) with k>0 where the cancellation actually landed strictly inside the run"
 	ev.Coverage["simulated_time"] = map[string]any{"vm_steps_polls": st["sim_polls"], "callback_ticks": st["sim_ticks"]}
 	ev.Coverage["fault_kinds"] = map[string]any{
-		"cancel_at_poll_k":       st["fault_landed_mode_A"],
-		"cancel_inside_callback": st["fault_landed_mode_B"],
-		"cancel_before_run":      st["cancelled_before_run"],
-		"cancel_on_emitting_step": st["cancel_on_emitting_step"],
+		"cancel_at_poll_k":                st["fault_landed_mode_A"],
+		"cancel_inside_callback":          st["fault_landed_mode_B"],
+		"cancel_before_run":               st["cancelled_before_run"],
+		"cancel_on_emitting_step":         st["cancel_on_emitting_step"],
 		"fault_drawn_but_run_ended_first": st["fault_not_landed"],
 	}
 	ev.Coverage["components"] = map[string]string{
